@@ -15,20 +15,20 @@ contract(M + "_get_bounds", props=["C02", "C15"],
          ensures=["result[0] <= bden(P)", "bden(P) <= result[1]",
                   "implies(allconst(P), True)"])
 
-contract(M + "_special_constraints_eq_zero", props=["C02"], trusted=True,
+contract(M + "_special_constraints_eq_zero", props=["C02", "C08"],
          instances=[{"pcbo": "model:PCBO", "P": "model:PUBO", "lam": "real"}],
+         requires=["wf(pcbo)", "wf(P)", "lam > 0", "distinct(pcbo, P)"],
          returns="bool", modifies=["pcbo"],
          ensures=["implies(not result, same_store(pcbo, old(store(pcbo))))",
                   "implies(result, den(pcbo) - old(den(pcbo)) >= 0)",
                   "implies(result and bden(P) == 0, den(pcbo) == old(den(pcbo)))",
                   "implies(result and bden(P) != 0, den(pcbo) - old(den(pcbo)) >= lam)",
                   "wf(pcbo)", "pcbo._ancilla == old(pcbo._ancilla)", "implies(old(bk(pcbo)), bk(pcbo))"],
-         note="syntactic special form a - b*c == 0 (reads key/value order of a two-term model): contract assumed, "
-              "checked by the bounded stand-in (C02 special-form clauses)")
+         note="syntactic special form v*a - v*b*c == 0, read off the key/value order of a two-term model (L11-enum)")
 
 _F = "(den(self) - old(den(self)))"
 contract(M + "PCBO.add_constraint_eq_zero", props=["C02", "C06", "C16", "C19"], taint=["lam"],
-         instances=[{"self": "model:PCBO", "P": p, "lam": "real", "bounds": b, "suppress_warnings": "const:False"}
+         instances=[{"self": "model:PCBO", "P": p, "lam": "real", "bounds": b, "suppress_warnings": "bool"}
                     for p in PK for b in BND],
          requires=["wf(self)", "lam > 0", "isint(bden(P))", "encloses(bounds, bden(P))",
                    "wf(P) if not typeis(P, 'dict') else True", "distinct(self, P)"],
@@ -140,7 +140,7 @@ contract(M + "_special_constraints_le_zero", props=["C02"], trusted=True,
 def _ineq(name, holds, loops=None):
     contract(M + "PCBO." + name, props=["C02", "C16", "C19"], taint=["lam"],
              instances=[{"self": "model:PCBO", "P": p, "lam": "real", "log_trick": "bool", "bounds": b,
-                         "suppress_warnings": "const:False"}
+                         "suppress_warnings": "bool"}
                         for p in ("termdict", "model:PUBO", "model:PCBO") for b in ("none", "tuple:real,real", "tuple:none,real")],
              requires=["wf(self)", "lam > 0", "isint(bden(P))", "encloses(bounds, bden(P))",
                        "wf(P) if not typeis(P, 'dict') else True", "distinct(self, P)"],
@@ -181,7 +181,7 @@ _SGN = "(slackval(pre(self._ancilla), visited, log_trick) if xv(anclabel(pre(sel
        "-slackval(pre(self._ancilla), visited, log_trick))"
 contract(M + "PCBO.add_constraint_ne_zero", props=["C02", "C16", "C19"], taint=["lam"],
          instances=[{"self": "model:PCBO", "P": p, "lam": "real", "log_trick": "bool", "bounds": b,
-                     "suppress_warnings": "const:False"}
+                     "suppress_warnings": "bool"}
                     for p in ("termdict", "model:PUBO", "model:PCBO") for b in ("none", "tuple:real,real", "tuple:none,real")],
          requires=["wf(self)", "lam > 0", "isint(bden(P))", "encloses(bounds, bden(P))",
                    "wf(P) if not typeis(P, 'dict') else True", "distinct(self, P)"],
